@@ -8,7 +8,7 @@ from ..psi import fmt, T
 from ..summaries import payload
 from . import common, wrappers_model
 from .client_model import ClientModel
-from .poller_model import PollerModel
+from .poller_model import PollerModel, mentions_query
 from .updater_model import UpdaterModel
 from .open_model import layout
 
@@ -65,7 +65,7 @@ def run(ctx, chk):
                 kind, st_, from_step = um.published(chk, i, ceb)
                 chk.ob('C01.W1', 'record.status<-fsm', (kind == 'fsm' and from_step) or (kind, st_) == ('const', 'Unknown'), where,
                        'status <- %s' % st[:80])
-        chk.floor('C01.W1', 'publishing paths', sum(1 for i in um.infos if i['records']), 5)
+        chk.floor('C01.W1', 'publishing paths', sum(1 for i in um.infos if i['records']), 2)
     if pm.ok:
         eng = pm.engine
         dests = set()
@@ -89,14 +89,16 @@ def run(ctx, chk):
                 reads = [(n, cid, ef) for n, cid, ef in info['reads'] if info['query'] and n < info['query'][0]]
                 ok = bool(reads) and asof == payload(T('call', reads[-1][2]['callee'], reads[-1][0], *reads[-1][2]['args']), 'Ok')
                 chk.ob('C01.W1', 'message.as_of<-pre-query-monotonic-read', ok, info['sends'][0][1]['site'][2], 'message as_of <- %s' % fmt(asof)[-60:])
-                chk.ob('C01.W1', 'message.tracking<-chrony-reply', 'get_tracking' in fmt(tr), info['sends'][0][1]['site'][2], 'message tracking <- %s' % fmt(tr)[-60:])
-        chk.ob('C01.W1', 'hop:poller-sends-to-writer-mailbox', dests == {'ShmWriter'}, pm.body.where(0), 'poll outcomes are sent to channel(s) %s' % sorted(dests))
-        chk.floor('C01.W1', 'data-message paths in the poll loop', n_data, 2)
-        # the writer loop runs in the thread that owns the ShmWriter mailbox: C15.N2 pairing, re-evaluated
+                chk.ob('C01.W1', 'message.tracking<-chrony-reply', mentions_query(tr), info['sends'][0][1]['site'][2], 'message tracking <- %s' % fmt(tr)[-60:])
+        chk.floor('C01.W1', 'data-message paths in the poll loop', n_data, 1)
+        # the writer loop runs in the thread that owns the mailbox the poller sends to: C15.N2 pairing, re-evaluated
         from . import C15
         sub = type(chk)('C01', LEVEL, chk.tier)
         sub._nested = True
+        C15.WRITER_ID[0] = None
         C15.run(ctx, sub)
+        chk.ob('C01.W1', 'hop:poller-sends-to-writer-mailbox', C15.WRITER_ID[0] is not None and dests == {C15.WRITER_ID[0]}, pm.body.where(0),
+               'poll outcomes are sent to channel(s) %s; the segment writer loop runs in the thread that owns the mailbox of %s' % (sorted(dests), C15.WRITER_ID[0]))
         for o in sub.obs:
             if o['key'].startswith(('spawn:mailbox-matches-id', 'spawn:id-matches-worker', 'spawn:context-moved-to-worker')):
                 chk.ob('C01.W1', 'hop:%s' % o['key'], o['ok'], o['where'], o['detail'])
@@ -180,7 +182,7 @@ def run(ctx, chk):
     chk.ob('C01.W4', 'path:components-use-it', len(used) == 2 and set(used.values()) == set(consts.values()) and len(set(consts.values())) == 1, '',
            'paths actually passed to ShmWriter::new / new_with_path: %s' % used)
     # ---------------------------------------------------------------- W5 one record offset / type
-    hdrl = layout(fb, 'shm_header::ShmHeader')
+    hdrl = layout(fb, '::ShmHeader')
     offs = {}
     for b in fb.bodies(common.SHM):
         if b.name == 'new' and (b.impl_self or '').endswith(('ShmReader', 'ShmWriter')):
